@@ -889,6 +889,30 @@ def C16_function_dim_without_origin_is_loud():
     return True, "agrees with JAX for b in {1,2,5}"
 
 
+def D34_tensorscatter_mode_at_opset_24():
+    """C11/C03: at opset 24 the dynamic_update_slice fast path emits TensorScatter with an attribute value the schema does not allow"""
+    jax, jnp = _jax()
+    from jax import lax
+    import jax2onnx
+    fn = lambda c, u, p: lax.dynamic_update_slice(c, u, (0, p, 0))  # noqa: E731
+    try:
+        m = jax2onnx.to_onnx(fn, [jax.ShapeDtypeStruct((2, 5, 3), np.float32), jax.ShapeDtypeStruct((2, 2, 3), np.float32), jax.ShapeDtypeStruct((), np.int32)], model_name="d34", opset=24)
+    except Exception as e:
+        return True, f"export raised {type(e).__name__} (loud)"
+    return _wellformed(m)
+
+
+def D35_float32_constant_next_to_a_float32_cast_under_double_precision():
+    """C09/C03: enable_double_precision=True, x.astype(float32) * float32(0.25): the constant is promoted to DOUBLE, the cast operand stays FLOAT"""
+    jax, jnp = _jax()
+    import jax2onnx
+    try:
+        m = jax2onnx.to_onnx(lambda x: x.astype(jnp.float32) * jnp.float32(0.25), [("B", 4)], model_name="d35", enable_double_precision=True)
+    except Exception as e:
+        return True, f"export raised {type(e).__name__} (loud)"
+    return _wellformed(m)
+
+
 def C03_function_identifiers_unique():
     """the same @onnx_function instantiated inside another function (2,3) and at top level (2,5): every
     function definition has its own (domain, name), the model passes the ONNX checker and agrees with JAX"""
@@ -1351,6 +1375,8 @@ ALL = {
     "D26": D26_inherited_patch_not_left_behind,
     "D29": D29_static_kwarg_value_in_function_key,
     "D30": D30_passthrough_function_body,
+    "D34": D34_tensorscatter_mode_at_opset_24,
+    "D35": D35_float32_constant_next_to_a_float32_cast_under_double_precision,
     "D31": D31_custom_name_collides_with_loop_body_value,
     "C13_rebinding_between_conversions": C13_rebinding_between_conversions,
     "D1": D1_max_nonscalar_side_operand,
